@@ -53,15 +53,51 @@ def labels(draw, n, construct, groups=None):
     return out
 
 
-def nest(params: list) -> dict:
-    """Nested mapping for Parameters.from_dict (insertion order = order of first appearance)."""
+DEFAULT_KEYS = {
+    "vary": lambda p: bool(p.get("vary", True)),
+    "non-negative": lambda p: bool(p.get("nn")),
+    "min": lambda p: p.get("min", -INF),
+    "max": lambda p: p.get("max", INF),
+}
+
+
+def nest(params: list, defaults: dict | None = None) -> dict:
+    """Nested mapping for Parameters.from_dict (insertion order = order of first appearance).
+
+    ``defaults = {"keys": [...], "pos": 0 | 1 | 2}``: every group list additionally carries a default-options mapping (the
+    options of its first member for ``keys``) as first / middle / last element; members that differ override it explicitly, so
+    the declared parameter set is the same with and without it."""
     root: dict = {}
+    leaves: dict = {}
     for p in params:
         *path, short = p["label"].split(".")
         node = root
         for part in path[:-1]:
             node = node.setdefault(part, {})
-        node.setdefault(path[-1], []).append(_as_list_item(p, short))
+        lst = node.setdefault(path[-1], [])
+        members = leaves.setdefault(id(lst), (lst, []))[1]
+        members.append((p, short))
+        lst.append(_as_list_item(p, short))
+    if defaults and defaults.get("keys"):
+        for lst, members in leaves.values():
+            group_default = {k: DEFAULT_KEYS[k](members[0][0]) for k in defaults["keys"]}
+            lst.clear()
+            for p, short in members:
+                item = [short]
+                if p.get("value") is not None:
+                    item.append(float(p["value"]))
+                o = _options(p)
+                for k, v in group_default.items():
+                    mine = DEFAULT_KEYS[k](p)
+                    if mine == v:
+                        o.pop(k, None)
+                    else:
+                        o[k] = mine
+                if o:
+                    item.append(o)
+                lst.append(item)
+            pos = {0: 0, 1: len(lst) // 2, 2: len(lst)}[defaults.get("pos", 2)]
+            lst.insert(pos, dict(group_default))
     return root
 
 
@@ -74,7 +110,8 @@ def traverse(nested, prefix="") -> list:
             out += traverse(val, path + ".")
         else:
             for item in val:
-                out.append(f"{path}.{item[0]}")
+                if not isinstance(item, dict):
+                    out.append(f"{path}.{item[0]}")
     return out
 
 
@@ -105,7 +142,7 @@ def _as_list_item(p, label):
 
 def declaration_order(case) -> list:
     if case.get("construct", "list") == "dict":
-        return traverse(nest(case["params"]))
+        return traverse(nest(case["params"], case.get("group_defaults")))
     return [p["label"] for p in case["params"]]
 
 
@@ -113,7 +150,7 @@ def spec(case):
     """The python object handed to the constructor (also what a yml file would contain)."""
     kind = case.get("construct", "list")
     if kind == "dict":
-        return nest(case["params"])
+        return nest(case["params"], case.get("group_defaults"))
     if kind == "list":
         return [_as_list_item(p, p["label"]) for p in case["params"]]
     raise ValueError(kind)
@@ -127,7 +164,7 @@ def build(case):
 
     kind = case.get("construct", "list")
     if kind == "dict":
-        return Parameters.from_dict(nest(case["params"]))
+        return Parameters.from_dict(nest(case["params"], case.get("group_defaults")))
     if kind == "list":
         return Parameters.from_list([_as_list_item(p, p["label"]) for p in case["params"]])
     if kind == "records":
@@ -314,4 +351,9 @@ def parameter_sets(draw, min_size=1, max_size=7, constructs=("list", "dict", "re
             p["max"] = int(math.ceil(v)) + int(draw(st.integers(1, 50)))
             if not p["min"] < v:
                 p["min"] = 1
-    return {"construct": construct, "params": params}
+    case = {"construct": construct, "params": params}
+    if construct == "dict" and draw(st.booleans()):
+        # default options of a group, as first / middle / last element of the group list
+        case["group_defaults"] = {"keys": draw(st.lists(st.sampled_from(sorted(DEFAULT_KEYS)), min_size=1, max_size=4, unique=True)),
+                                  "pos": draw(st.integers(0, 2))}
+    return case
